@@ -35,16 +35,19 @@ PIdx(a, b, i) == ((a + b + 2 * (i - 1)) % GridLen) + 1
 
 Init ==
   /\ rec = <<>>
-  /\ \E obj \in Objectives, c \in 1..Len(Clamps), s \in Shapes, a \in Offsets, b \in Offsets :
-        pick = [obj |-> obj, clamp |-> c, shape |-> ShapeMenu[s], a |-> a, b |-> b]
+  \* (tie: on 3-D shapes, the prediction of the whole FIRST CHANNEL equals the target -- an exactly fitted channel next to
+  \* channels that are not)
+  /\ \E obj \in Objectives, c \in 1..Len(Clamps), s \in Shapes, a \in Offsets, b \in Offsets, tie \in BOOLEAN :
+        /\ tie => (Len(ShapeMenu[s]) = 3 /\ b \in {0, 3})
+        /\ pick = [obj |-> obj, clamp |-> c, shape |-> ShapeMenu[s], a |-> a, b |-> b, tie |-> tie]
 
 Compute ==
   /\ rec = <<>> /\ UNCHANGED pick
   /\ LET n == Count(pick.shape) G == GridOf(pick.obj)
          t == [i \in 1..n |-> G[TIdx(pick.a, i)]]
-         p == [i \in 1..n |-> G[PIdx(pick.a, pick.b, i)]]
+         p == [i \in 1..n |-> IF pick.tie /\ i <= pick.shape[2] * pick.shape[3] THEN t[i] ELSE G[PIdx(pick.a, pick.b, i)]]
          \* away from |.| kinks and clamp edges: the derivative clause applies
-         smooth == \A i \in 1..n :
+         smooth == ~pick.tie /\ \A i \in 1..n :
                       IF pick.obj \in Probabilistic THEN PIdx(pick.a, pick.b, i) \in {3, 4, 5} /\ TIdx(pick.a, i) # 1
                       ELSE t[i] # p[i]
      IN rec' = [obj |-> pick.obj, shape |-> pick.shape, n |-> n, t |-> t, p |-> p,
